@@ -30,6 +30,7 @@ const (
 	kProp
 	kBool
 	kPt
+	kERat
 )
 
 type env map[string]string
@@ -75,7 +76,20 @@ func trExpr(x ast.Expr, e env) (string, kind) {
 			return t.Value, kRat
 		}
 		fail("literal %s", t.Value)
+	case *ast.UnaryExpr:
+		if t.Op != token.NOT {
+			fail("unary operator %s", t.Op)
+		}
+		s, k := trExpr(t.X, e)
+		return "(!" + asBool(s, k) + ")", kBool
 	case *ast.SelectorExpr:
+		if in, ok := t.X.(*ast.SelectorExpr); ok { // b.Min.X of a *Bounds: an extended rational
+			id, ok := in.X.(*ast.Ident)
+			if !ok || (in.Sel.Name != "Min" && in.Sel.Name != "Max") || (t.Sel.Name != "X" && t.Sel.Name != "Y") {
+				fail("nested selector outside the subset")
+			}
+			return e.name(id.Name) + "." + strings.ToLower(in.Sel.Name) + t.Sel.Name, kERat
+		}
 		id, ok := t.X.(*ast.Ident)
 		if !ok {
 			fail("selector on non-identifier")
@@ -88,6 +102,13 @@ func trExpr(x ast.Expr, e env) (string, kind) {
 		}
 		fail("field %s", t.Sel.Name)
 	case *ast.CallExpr:
+		if m, ok := t.Fun.(*ast.SelectorExpr); ok { // b.Empty()
+			id, ok := m.X.(*ast.Ident)
+			if !ok || m.Sel.Name != "Empty" || len(t.Args) != 0 {
+				fail("method call outside the subset")
+			}
+			return "(Bounds_Empty " + e.name(id.Name) + ")", kBool
+		}
 		fn, ok := t.Fun.(*ast.Ident)
 		if !ok || fn.Name != "pointSubtract" || len(t.Args) != 2 {
 			fail("call outside the subset")
@@ -148,6 +169,18 @@ func trExpr(x ast.Expr, e env) (string, kind) {
 			op := map[token.Token]string{token.LSS: "<", token.GTR: ">", token.LEQ: "≤", token.GEQ: "≥", token.EQL: "="}[t.Op]
 			if kl == kRat && kr == kRat {
 				return l + " " + op + " " + r, kProp
+			}
+			if kl == kERat && kr == kERat { // float comparisons of box fields (±Inf possible, no NaN)
+				switch t.Op {
+				case token.LEQ:
+					return "(ERat.le " + l + " " + r + ")", kBool
+				case token.GEQ:
+					return "(ERat.le " + r + " " + l + ")", kBool
+				case token.LSS:
+					return "(!(ERat.le " + r + " " + l + "))", kBool
+				case token.GTR:
+					return "(!(ERat.le " + l + " " + r + "))", kBool
+				}
 			}
 			if kl == kFQ && kr == kFQ {
 				switch t.Op {
@@ -262,9 +295,25 @@ func trStmts(ss []ast.Stmt, e env, ind string, fresh *int) string {
 
 func trFunc(fd *ast.FuncDecl) string {
 	var params []string
-	for _, f := range fd.Type.Params.List {
-		id, ok := f.Type.(*ast.Ident)
-		if !ok || id.Name != "Point" {
+	ptyp := "P"
+	name := fd.Name.Name
+	fields := fd.Type.Params.List
+	if fd.Recv != nil {
+		fields = append(append([]*ast.Field{}, fd.Recv.List...), fields...)
+		name = "Bounds_" + name
+	}
+	for _, f := range fields {
+		switch t := f.Type.(type) {
+		case *ast.Ident:
+			if t.Name != "Point" || fd.Recv != nil {
+				fail("%s: parameter type outside the subset", fd.Name.Name)
+			}
+		case *ast.StarExpr:
+			if id, ok := t.X.(*ast.Ident); !ok || id.Name != "Bounds" || fd.Recv == nil {
+				fail("%s: parameter type outside the subset", fd.Name.Name)
+			}
+			ptyp = "Bounds"
+		default:
 			fail("%s: parameter type outside the subset", fd.Name.Name)
 		}
 		for _, n := range f.Names {
@@ -279,9 +328,9 @@ func trFunc(fd *ast.FuncDecl) string {
 	fresh := 0
 	body := trStmts(fd.Body.List, env{}, "  ", &fresh)
 	if rmode {
-		return fmt.Sprintf("def %s (rnd : Rat → Rat) (%s : P) : %s :=\n%s\n", fd.Name.Name, strings.Join(params, " "), lret, body)
+		return fmt.Sprintf("def %s (rnd : Rat → Rat) (%s : %s) : %s :=\n%s\n", name, strings.Join(params, " "), ptyp, lret, body)
 	}
-	return fmt.Sprintf("def %s (%s : P) : %s :=\n%s\n", fd.Name.Name, strings.Join(params, " "), lret, body)
+	return fmt.Sprintf("def %s (%s : %s) : %s :=\n%s\n", name, strings.Join(params, " "), ptyp, lret, body)
 }
 
 func extract(repo string) (out string, err error) {
@@ -294,8 +343,12 @@ func extract(repo string) (out string, err error) {
 			err = fmt.Errorf("%v", r)
 		}
 	}()
-	want := []struct{ file, fn string }{
-		{"simplify.go", "pointSubtract"}, {"simplify.go", "pointOnSegment"}, {"within.go", "rayIntersectsSegment"}}
+	want := []struct {
+		file, fn string
+		method   bool // a (*Bounds) method: comparisons only, translated once (nothing to round)
+	}{
+		{"simplify.go", "pointSubtract", false}, {"simplify.go", "pointOnSegment", false}, {"within.go", "rayIntersectsSegment", false},
+		{"bounds.go", "Empty", true}, {"bounds.go", "Overlaps", true}}
 	var b strings.Builder
 	b.WriteString("import GeomV.C02.Model\n/-! GENERATED by `harness/cmd/c02 extract` from simplify.go and within.go of the tree under test.\nDo not edit; regenerated by every `bin/check C02` run (checks/C02.py pregen). -/\nnamespace GeomV.C02.Gen\nopen GeomV GeomV.C02\n\n")
 	fset := token.NewFileSet()
@@ -305,13 +358,16 @@ func extract(repo string) (out string, err error) {
 			b.WriteString("end GeomV.C02.Gen\n\n/-! the same functions with every float `-` and `/` rounded by `rnd` -/\nnamespace GeomV.C02.GenR\nopen GeomV GeomV.C02\n\n")
 		}
 		for _, wn := range want {
+			if wn.method && rmode {
+				continue
+			}
 			f, perr := parser.ParseFile(fset, filepath.Join(repo, wn.file), nil, 0)
 			if perr != nil {
 				return "", perr
 			}
 			found := false
 			for _, d := range f.Decls {
-				if fd, ok := d.(*ast.FuncDecl); ok && fd.Recv == nil && fd.Name.Name == wn.fn {
+				if fd, ok := d.(*ast.FuncDecl); ok && (fd.Recv != nil) == wn.method && fd.Name.Name == wn.fn {
 					b.WriteString(trFunc(fd))
 					b.WriteString("\n")
 					found = true
